@@ -11,6 +11,9 @@ if [ -f /tmp/seedq-g.txt ]; then
     grep -q "^$qid $qname done" /tmp/seedq-g.log 2>/dev/null || { echo "refusing: $qid $qname is still queued (its deliverables live in /tmp/seed-$id)"; exit 1; }
   done < /tmp/seedq-g.txt
 fi
+# ... nor while the agent this script prepared the last prompt for has not reported back (marker file, removed by hand
+# when its completion notice arrives), unless FORCE=1
+if [ -f /tmp/seed-busy-$id ] && [ -z "$FORCE" ]; then echo "refusing: /tmp/seed-busy-$id exists (an agent for $id is still at work)"; exit 1; fi
 # ... nor a worktree in which somebody is working (uncommitted modifications), unless FORCE=1
 if [ -d /tmp/wt-$id ] && [ -z "$FORCE" ] && [ -n "$(git -C /tmp/wt-$id status --porcelain 2>/dev/null | head -1)" ] && [ ! -f /tmp/seed-$id/patch.diff ]; then
   echo "refusing: /tmp/wt-$id has modifications and no delivered patch yet (an agent is probably at work); FORCE=1 overrides"; exit 1
@@ -32,4 +35,5 @@ if os.path.exists("/tmp/seed-steer.txt"):
     t+="\n"+open("/tmp/seed-steer.txt").read()
 open(f"/tmp/seed-prompt-{id}.txt","w").write(t)
 P
+touch /tmp/seed-busy-$id
 echo "prepared /tmp/wt-$id and /tmp/seed-prompt-$id.txt"
